@@ -59,8 +59,9 @@ class Flow:
                 if is_container_type(t):
                     if size_only:
                         return {("parm", d["n"], "size")}
-                    return {("parm", d["n"], "size"), ("parm", d["n"], "content")}
-                return {("parm", d["n"], "val")}
+                    return {("parm", d["n"], "size"), ("parm", d["n"], "content")} | set(self.env.get(d["id"], ()))
+                # a by-value parameter that the function itself modifies (std::advance(it, _nc)) also carries what was written
+                return {("parm", d["n"], "val")} | set(self.env.get(d["id"], ()))
             # lambda parameter: bound at the call, unknown here
             return set(self.env.get(d["id"], ()))
         if k == "local" or k == "binding" or (k == "global" and d.get("sl")):
